@@ -269,6 +269,7 @@ impl<'a> Gen<'a> {
                 Expr::Enum(ty.clone(), i, Box::new(p))
             }
             Ty::Snap(t) => Expr::Snap(Box::new(self.leaf(t))),
+            Ty::Boxed(t) => Expr::BoxNew(Box::new(self.leaf(t))),
             Ty::Arr(_) => panic!("no array leaves"),
         }
     }
@@ -461,6 +462,11 @@ impl<'a> Gen<'a> {
                 self.stats.hit("snap");
                 let a = self.expr(t, d);
                 Expr::Snap(Box::new(a))
+            }
+            Ty::Boxed(t) => {
+                self.stats.hit("box_new");
+                let a = self.expr(t, d);
+                Expr::BoxNew(Box::new(a))
             }
             Ty::Arr(_) => panic!("array expression requested"),
         }
@@ -1178,7 +1184,7 @@ impl<'a> Gen<'a> {
         } else {
             self.block(&ret, depth)
         };
-        self.prog.fns.push(FnDecl { params, ret, body });
+        self.prog.fns.push(FnDecl { inline: None, params, ret, body });
     }
 
     pub fn program(mut self) -> Program {
@@ -1239,8 +1245,10 @@ fn cost_expr(e: &Expr, fc: &[f64], me: usize, self_sites: &mut u32) -> f64 {
         | Expr::ArrAppend(_, a)
         | Expr::ArrAt(_, a)
         | Expr::Snap(a)
-        | Expr::Desnap(a) => c(a),
-        Expr::Bin(_, _, a, b) | Expr::AndAlso(a, b) | Expr::OrElse(a, b) => c(a) + c(b),
+        | Expr::Desnap(a)
+        | Expr::BoxNew(a)
+        | Expr::Unbox(a) => c(a),
+        Expr::Bin(_, _, a, b) | Expr::Arith(_, _, _, a, b) | Expr::AndAlso(a, b) | Expr::OrElse(a, b) => c(a) + c(b),
         Expr::Tup(_, es) => es.iter().map(|e| c(e)).sum(),
         Expr::Match(_, a, arms) => c(a) + arms.iter().map(|(_, b)| c(b)).fold(0.0, f64::max),
         Expr::MatchInt(_, a, arms, d) => {
@@ -1252,7 +1260,7 @@ fn cost_expr(e: &Expr, fc: &[f64], me: usize, self_sites: &mut u32) -> f64 {
             let mut t = 0.0;
             for s in stmts {
                 t += match s {
-                    Stmt::Let(_, _, e) | Stmt::Expr(e) => c(e),
+                    Stmt::Let(_, _, e) | Stmt::LetTup(_, _, e) | Stmt::Expr(e) => c(e),
                 };
             }
             t + c(tail)
